@@ -121,6 +121,8 @@ def job_api(job: dict) -> dict:
         sp = SchedPool(job["sched"], job["k"])
         core.ProcessPoolExecutor = sp.Executor
         core.as_completed = sp.as_completed
+        if hasattr(core, "wait"):              # a dispatcher that drains with concurrent.futures.wait()
+            core.wait = sp.wait
     try:
         par = _vbag(orch2.lint_files_parallel(list(paths), max_workers=job["k"]), root)
     finally:
@@ -293,9 +295,9 @@ def run(chk) -> None:
     for n, k in exhaustive:
         for s in gen_schedules(chk, n, k, None, chk.seed):
             jobs.append({"n": n, "k": k, "sched": s, "pool": "sched"})
-    sims = [(4, 2, 40), (5, 2, 20), (6, 3, 12), (8, 4, 8), (12, 3, 6), (17, 8, 4), (33, 16, 3)] if quick else \
+    sims = [(4, 2, 40), (5, 2, 20), (6, 3, 12), (8, 4, 8), (12, 3, 6), (7, 1, 4), (11, 2, 6), (17, 8, 4), (33, 16, 3)] if quick else \
         [(4, 2, 1500), (5, 2, 300), (6, 3, 150), (7, 3, 100), (8, 4, 100), (12, 3, 60), (12, 6, 60), (17, 8, 40), (24, 12, 30),
-         (33, 16, 25), (40, 16, 25), (40, 5, 25)]
+         (33, 16, 25), (40, 16, 25), (40, 5, 25), (7, 1, 20), (11, 2, 40), (23, 4, 20)]
     for n, k, num in sims:
         for s in gen_schedules(chk, n, k, num, chk.seed + n * 100 + k)[:num]:
             jobs.append({"n": n, "k": k, "sched": s, "pool": "sched"})
@@ -307,7 +309,7 @@ def run(chk) -> None:
     # fallback side and real pool, K = 1..16
     ks = [1, 2, 3, 5, 8, 16] if quick else list(range(1, 17))
     for k in ks:
-        for n in sorted({max(1, 2 * k - 1), 2 * k, 2 * k + 1} | ({40} if not quick else set())):
+        for n in sorted({max(1, 2 * k - 1), 2 * k, 2 * k + 1} | ({40} if not quick else set()) | ({4 * k + 3} if k <= 3 else set())):   # several files per worker: a dispatcher may not hand everything out at once
             jobs.append({"n": n, "k": k, "sched": [], "pool": "real"})
     for i, j in enumerate(jobs):
         j["cross"] = cross_for(j["n"])
